@@ -251,7 +251,7 @@ out-of-range index is reachable. -/
 theorem loadDoc_never_panics (order : Option (List Nat)) (file : Bytes) : (loadDocOrd order file).noPanic := by
   rw [noPanic_iff]
   intro s
-  unfold loadDocOrd
+  unfold loadDocOrd loadDocWith
   repeat' split
   all_goals (try simp_all)
   all_goals (repeat' split)
